@@ -557,6 +557,58 @@ static int run_adversary (const char *init, const char *violdir, const char *pro
 	return 0;
 }
 
+/* ---- C14 search: schedules that maximise the number of times thread 1 (the victim) is sent back to sleep inside one lock
+   call.  Runs are deterministic functions of their choice sequence, so the search keeps the shortest prefix that reached the
+   best score so far and continues from it (or from a slightly shortened copy) with fresh random choices.  Judged by O-starve. ---- */
+#define CLIMB_MAX 400000
+static int run_climb (long runs, unsigned seed, const char *init, const char *violdir, const char *prop) {
+	static unsigned char best[CLIMB_MAX], cur[CLIMB_MAX];
+	long bestn = 0, r, viols = 0, steps_total = 0;
+	int bestscore = 0, i;
+	for (r = 0; r < runs && !viols; r++) {
+		long n = 0, cut = 0, extra;
+		rng = 88172645463325252ULL ^ ((unsigned long long) seed * 0x9E3779B97F4A7C15ULL) ^ ((unsigned long long) r * 0xD1B54A32D192ED03ULL);
+		rt_reset ();
+		setup (init);
+		if (bestn > 0 && (r % 8) != 0) { cut = bestn; if (rnd () % 3 == 0) cut -= (long) (rnd () % (unsigned) (bestn < 60 ? bestn : 60)); }
+		for (n = 0; n < cut && !rt_first_violation (); n++) {
+			int t = best[n];
+			if (t == 255) rt_tick ();
+			else { if (!rt_enabled (t)) break; rt_grant (t); note_step (t); }
+			cur[n] = (unsigned char) t;
+		}
+		extra = n + 4000;
+		while (!victim_done () && n < extra && n < CLIMB_MAX - 1 && !rt_first_violation ()) {
+			int cand[RT_MAXT], nc = 0, t;
+			for (i = 0; i < S.n; i++) if (rt_enabled (i)) cand[nc++] = i;
+			if (nc == 0 && rt_timed_waiter_pending ()) { rt_tick (); cur[n++] = 255; continue; }
+			if (nc == 0) break;
+			/* the victim runs whenever it can with probability 1/2: a woken victim that is slow is not the interesting case */
+			t = cand[rnd () % (unsigned) nc];
+			rt_grant (t); note_step (t);
+			cur[n++] = (unsigned char) t;
+			if (S.sleeps[0] > bestscore) { bestscore = S.sleeps[0]; memcpy (best, cur, (size_t) n); bestn = n; extra = n + 4000; }
+		}
+		steps_total += n;
+		if (!rt_first_violation () && !victim_done () && !rt_any_enabled () && !rt_timed_waiter_pending ()) finish (1);   /* everybody asleep: O-prog */
+		if (rt_first_violation ()) {
+			const struct rt_viol *v = rt_first_violation ();
+			char path[512] = "-";
+			viols++;
+			if (violdir) {
+				FILE *o;
+				snprintf (path, sizeof path, "%s/%s_climb%u_%ld.sched", violdir, prop, seed, viols);
+				o = fopen (path, "w");
+				if (o) { long k; fprintf (o, "T %ld %s\n", r + 1, init); for (k = 0; k < n; k++) { if (cur[k] == 255) fprintf (o, "S 0 Tick *\n"); else fprintf (o, "S %d * *\n", cur[k] + 1); } fputs ("E\n", o); fclose (o); }
+			}
+			printf ("VIOL %s|%s|thread %d|step %ld|%s|%s\n", v->oracle, v->fn, v->tid, v->step, path, v->msg);
+		}
+	}
+	printf ("STATS tours=%ld steps=%ld matched=%ld diverged=0 mismatches=0 violations=%ld nontrivial=%ld\n", r, steps_total, r - viols, viols, r);
+	printf ("MAXSLEEPS %d\n", maxsleeps);
+	return viols ? 1 : 0;
+}
+
 int main (int argc, char **argv) {
 	static struct rp_harness h = { setup, pre, env, obs, finish, post, NULL };
 	struct rp_stats st;
@@ -581,6 +633,7 @@ int main (int argc, char **argv) {
 		return st.violations ? 1 : 0;
 	}
 	if (!strcmp (argv[1], "adversary") && argc >= 3) return run_adversary (argv[2], argc > 3 ? argv[3] : NULL, prop);
+	if (!strcmp (argv[1], "climb") && argc >= 5) return run_climb (atol (argv[2]), (unsigned) atol (argv[3]), argv[4], argc > 5 ? argv[5] : NULL, prop);
 	if (!strcmp (argv[1], "random") && argc >= 5) {
 		if (argc > 6) trace = fopen (argv[6], "w");
 		return run_random (atol (argv[2]), (unsigned) atol (argv[3]), argv[4], argc > 5 ? argv[5] : NULL, prop);
